@@ -53,6 +53,11 @@ CONSTANTS
     MaxR,                 \* bound on Resolve calls
     MaxFault,             \* bound on injected faults (BreakConn, registry failure, metadata failure)
     TrackFiles,           \* model the open cache files of a layer/blob (one more bit per object)
+    Extras,               \* FALSE (generation configs only): leave out the steps that change nothing in the model (Read,
+                          \* DoneAgain, Refresh of a healthy connection) and the repeated Close; the driver then reads
+                          \* through every held layer after every step instead
+    SymBreak,             \* TRUE (generation configs only): callers that have nothing in hand are interchangeable, the
+                          \* lowest-numbered one starts the next Resolve
     \* guards of the code; FALSE = negative control
     ResolveLock,          \* Resolve takes the per-name lock
     CloseWaitsForHolders, \* the callback runs at the last release, not at eviction
@@ -154,6 +159,7 @@ ResolveLockA(h, n) ==
     /\ hs[h].pc \in {"idle", "released"}
     /\ nres < MaxR
     /\ ResolveLock => lock[n] = 0
+    /\ (SymBreak /\ hs[h].pc = "idle") => \A h2 \in 1..(h - 1) : hs[h2].pc # "idle"
     /\ lock' = IF ResolveLock THEN [lock EXCEPT ![n] = h] ELSE lock
     /\ hs' = [hs EXCEPT ![h] = [Idle EXCEPT !.pc = "locked", !.n = n]]
     /\ nres' = nres + 1
@@ -329,6 +335,7 @@ Serves(l) ==
 
 \* RootNode + a file read through the reader + ReadAt of the blob
 Read(h) ==
+    /\ Extras
     /\ At(h, "held")
     /\ LET l == hs[h].l IN
         /\ IF TrackFiles /\ Serves(l)
@@ -356,10 +363,12 @@ Close(h) ==
 
 \* Done after Done/Close: nothing (once guard); Close after Done/Close: evicts again (no decrement)
 DoneAgain(h) ==
+    /\ Extras
     /\ At(h, "released")
     /\ UNCHANGED core
     /\ Obs("DoneAgain", h, hs[h].n, TRUE, TRUE, "")
 CloseAgain(h) ==
+    /\ Extras
     /\ At(h, "released")
     /\ SetW(LEvictRelease(W, hs[h].l, FALSE))
     /\ UNCHANGED <<lock, hs, nres, nfault>>
@@ -371,7 +380,8 @@ Refresh(h, arg) ==
     /\ LET l == hs[h].l
            b == layers[l].blob
            ok == arg /\ ~layers[l].closed /\ ~blobs[b].closed
-       IN /\ (~arg) => nfault < MaxFault
+       IN /\ Extras \/ ~blobs[b].conn
+          /\ (~arg) => nfault < MaxFault
           /\ nfault' = IF arg THEN nfault ELSE nfault + 1
           /\ blobs' = IF ok THEN [blobs EXCEPT ![b].conn = TRUE] ELSE blobs
           /\ Obs("Refresh", h, hs[h].n, arg, ok, "")
